@@ -46,6 +46,27 @@ def slices_oracle(I, cfg, inp, lines, what='wrap', check_borrow=True):
     L = len(lines)
     memo = {}
 
+    def wordchar(i):
+        # a character of a word of the ASCII separator: not a space and not part of a line ending
+        return v_and(v_ne(text[i][0], 32), v_not(lechar[i]))
+
+    def split_point(b):
+        """an inserted hyphen is only legitimate where the (injected) splitter has a split point: C1 every interior
+        character boundary of a word, C2 only the first, C3 only the last.  Tied to words of the ASCII separator;
+        for the Unicode separator (words are not delimited by spaces only) any position is accepted."""
+        if cfg.get('sep', 'A') != 'A' or split not in ('C1', 'C2', 'C3'):
+            return True
+        if b <= 0 or b >= n:
+            return False
+        inside = v_and(wordchar(b - 1), wordchar(b))
+        if split == 'C1':
+            return inside
+        if split == 'C2':
+            first = True if b - 1 == 0 else v_not(wordchar(b - 2))
+            return v_and(inside, first)
+        last = True if b + 1 == n else v_not(wordchar(b + 1))
+        return v_and(inside, last)
+
     def gap(e, a, first):
         conds = [(lechar[i] if first else gapchar[i]) for i in range(e, a)]
         return v_and(*conds)
@@ -74,8 +95,9 @@ def slices_oracle(I, cfg, inp, lines, what='wrap', check_borrow=True):
                 if a + len(rem) <= n:
                     variants.append((seq_eq(rem, text[a:a + len(rem)]), a + len(rem)))
                 if custom and rem and a + len(rem) - 1 <= n:
+                    b_ = a + len(rem) - 1
                     variants.append((v_and(v_eq(rem[-1][0], ord('-')) if rem[-1][1] == 1 else False,
-                                           seq_eq(rem[:-1], text[a:a + len(rem) - 1])), a + len(rem) - 1))
+                                           seq_eq(rem[:-1], text[a:b_]), split_point(b_)), b_))
                 for mt, b in variants:
                     if mt is False:
                         continue
@@ -113,6 +135,9 @@ class C01(WrapHarness):
         out.append(dict(base, gen='sym1', n=4 if q else 5, fn='wrap', le='CRLF'))
         out.append(dict(base, gen='sym1', n=3 if q else 4, fn='wrap', ind='both', imax=1))
         out.append(dict(base, gen='sym1', n=3 if q else 4, fn='wrap', ind='both', imax=1, split='C1'))
+        out.append(dict(base, gen='sym1', n=3 if q else 4, fn='wrap', split='C3'))
+        out.append(dict(base, gen='sym1', n=3 if q else 4, fn='wrap', split='C3', algo='O', ind='si', imax=1))
+        out.append(dict(base, gen='sym1', n=3 if q else 4, fn='fill', split='C2', bw=True))
         out.append(dict(base, gen='sym1', n=3 if q else 4, fn='fill'))
         out.append(dict(base, gen='sym1', n=3 if q else 4, fn='fill', le='CRLF', ind='ii', imax=1))
         out.append(dict(base, algo='O', gen='sym1', n=3 if q else 4, fn='wrap', ind='both', imax=1))
